@@ -92,6 +92,14 @@ MEMBER_TEXT = {
     "virt:decl-T": "virtual void v{i}(const {T} &);",
     "virt:override-T": "void v{i}(const int &) override;",
     "virt:implicit-override-T": "void v{i}(const int &);",
+    # pure virtuals with class-typed reference / pointer parameters, their exact overriders, and same-named
+    # functions that differ only in the const of the referent / pointee (these HIDE, they do not override)
+    "virt:pure-ref": "virtual void v{i}(VfCanvas &) = 0;",
+    "virt:pure-ptr": "virtual void v{i}(VfCanvas *) = 0;",
+    "virt:override-ref": "void v{i}(VfCanvas &) override;",
+    "virt:override-ptr": "void v{i}(VfCanvas *);",
+    "virt:hide-cref": "void v{i}(const VfCanvas &);",
+    "virt:hide-cptr": "void v{i}(const VfCanvas *);",
     "fn:plain": "void m{i}();",
     "fn:static": "static void s{i}();",
     "fn:published": "void pm();",
@@ -134,7 +142,7 @@ DATA_CLASS = ["data:class", "data:class", "data:class", "data:const-class", "dat
 
 PRELUDE = (
     "#ifdef CPPPARSER\n#define PUBLISHED __published\n#else\n#define PUBLISHED public\n#endif\n"
-    "extern int vf_g_int;\n")
+    "extern int vf_g_int;\nstruct VfCanvas { int w; };\n")
 PRELUDE_LINES = PRELUDE.count("\n")
 
 
@@ -443,9 +451,19 @@ def gen_model(rng, n_classes=12, depth_max=4, width_max=3, published=True, templ
 
     def fixed(members, bases=()):
         nonlocal k
+        def mem(i, t):
+            acc = "public"
+            if "@" in t:
+                t, acc = t.split("@")
+            n = i
+            if "#" in t:
+                t, n = t.split("#")
+                n = int(n)
+            return {"tag": t, "access": acc, "n": n}
         c = {"name": f"C{k}", "kw": rng.choice(["struct", "class"]), "final": False,
-             "bases": [{"ref": b, "access": "public", "virtual": False} for b in bases],
-             "members": [{"tag": t, "access": "public", "n": i} for i, t in enumerate(members)]}
+             "bases": [{"ref": b[2:] if b.startswith("v:") else b, "access": "public", "virtual": b.startswith("v:")}
+                       for b in bases],
+             "members": [mem(i, t) for i, t in enumerate(members)]}
         if published:
             c["members"].append({"tag": "fn:published", "access": "PUBLISHED", "n": 99})
         k += 1
@@ -459,6 +477,19 @@ def gen_model(rng, n_classes=12, depth_max=4, width_max=3, published=True, templ
     fixed(["ctor-default:user", rng.choice(["ctor-copy:dflt2", "ctor-xcopy3"])] +
           (["ctor-move:user"] if rng.random() < 0.5 else []))
     fixed(["ctor-default:user", "ctor-xcopy2", "ctor-copy:user"])
+    # always present: overriders vs. hiders that differ only in the const of a referent / pointee
+    shape = fixed(["virt:pure-ref#0", "virt:pure-ptr#1"])
+    fixed([rng.choice(["virt:hide-cref#0", "virt:override-ref#0"]), "virt:hide-cptr#1"], bases=[shape])
+    fixed(["virt:hide-cref#0", rng.choice(["virt:override-ptr#1", "virt:hide-cptr#1"])], bases=[shape])
+    fixed(["virt:override-ref#0", "virt:override-ptr#1"], bases=[shape])
+    # always present: a virtual base that is only reached through another virtual base and cannot be
+    # default-constructed / destroyed by the most derived class
+    bad = rng.choice([["ctor-conv"], ["ctor-default:user", "dtor:user@private"], ["ctor-default:delete"]])
+    device = fixed(bad)
+    ios = fixed(["ctor-default:user"] + (["dtor:user"] if rng.random() < 0.3 else []), bases=["v:" + device])
+    stream = fixed([], bases=["v:" + ios])
+    fixed([], bases=[stream])
+    fixed(["ctor-default:user"], bases=["v:" + stream] if rng.random() < 0.5 else [stream])
     if templates:
         # always present: class templates whose special members / pure virtuals / members mention T or the
         # template's own name, judged through their instantiation and used as base and as member of ordinary classes
